@@ -568,9 +568,12 @@ def scope_kind(t, parent_kind, prev, prev2):
 INDENTING = ("body", "dict", "copts", "sig")
 
 
-def analyse(tree, att, det, src=b""):
-    """Features of a source that trigger the known round-trip defects, from the hook dump."""
+def analyse(tree, att, det, src=b"", extra=None):
+    """Features of a source that trigger the known round-trip defects, from the hook dump.
+    extra (a dict) receives `sep_leading`: the ids of the trivia attached as leading to the separators of
+    message literals (round-trip mode as it is never prints those separators, nor their leading trivia)."""
     F = set()
+    sep_leading = []
     # offsets: the leaves tile the text in stream order
     off = [0]
     end_of = {}
@@ -609,10 +612,11 @@ def analyse(tree, att, det, src=b""):
                     F.add("trivia-inside-concatenated-string-dropped" if kind == "string" else "trivia-dropped-before-closer")
                 continue
             info["gaps"].append((run, depth, t))
-            nl_before = any(x["c"] == 1 for x in run)
+            nl_before = any(x["c"] == 1 or b"\n" in _txt(x) for x in run)
             run = []
             if kind == "dict" and t["c"] in (5, 6):
                 F.add("roundtrip-drops-message-literal-separator")
+                sep_leading.extend(A.get(t["id"], {"l": []})["l"])
             if t["c"] >= 9:
                 k2 = scope_kind(t, kind, prev, prev2)
                 if t["id"] not in A:
@@ -653,6 +657,9 @@ def analyse(tree, att, det, src=b""):
         return any(y["c"] == 1 or b"\n" in _txt(y) or (y["c"] >= 9 and _has_nl(y)) for y in x["ch"])
 
     walk(tree or [], "file", 0, 0)
+    if extra is not None:
+        extra["sep_leading"] = sep_leading
+        extra["cls"] = cls
     for run, depth, nxt in info["gaps"]:
         if run and depth >= 1 and all(x["c"] == 1 and _txt(x) == b"\n" for x in run):
             F.add("roundtrip-reindents-unindented-line")
